@@ -68,7 +68,7 @@ func genInsertBody(rt *rapid.T, env *dataEnv) []*tw.Stmt {
 	return g.block(2, false)
 }
 
-func genPage(rt *rapid.T, env *dataEnv, layoutRef string, k int) ([]*tw.Stmt, map[string]string) {
+func genPage(rt *rapid.T, env *dataEnv, layoutRef string, k int, where map[string]string) ([]*tw.Stmt, map[string]string) {
 	forms := map[string]string{}
 	page := []*tw.Stmt{{Kind: tw.SUse, Name: layoutRef}}
 	junk := []string{"\n", "\n\n", "<p>outside</p>\n", " ", "IGNORED", "{{-- c --}}"}
@@ -79,13 +79,25 @@ func genPage(rt *rapid.T, env *dataEnv, layoutRef string, k int) ([]*tw.Stmt, ma
 		}
 		page = append(page, tw.Text(rapid.SampledFrom(junk).Draw(rt, "junk")))
 		ins := &tw.Stmt{Kind: tw.SInsert, Name: reserveNames[i]}
+		// the insert takes the reserve's place: where the reserve sits inside a
+		// loop of the layout, the insert may use that loop's variable and metadata
+		inLoop := where[reserveNames[i]] == "in-each" || where[reserveNames[i]] == "nested"
+		usesLoop := inLoop && rapid.IntRange(0, 2).Draw(rt, "usesLayoutLoop") > 0
 		if rapid.Bool().Draw(rt, "blockForm") {
 			ins.Block = true
 			ins.Body = genInsertBody(rt, env)
+			if usesLoop {
+				ins.Body = append(ins.Body, tw.Text("@"), tw.Print(tw.Var("li")), tw.Text("#"), tw.Print(tw.Dot(tw.Var("loop"), "iter")))
+				forms[ins.Name+"/uses-layout-loop"] = "block"
+			}
 			forms[ins.Name] = "block"
 		} else {
 			eg := &exprGen{env: env}
 			ins.E = eg.gen(rt, rapid.SampledFrom([]refint.Kind{refint.KInt, refint.KStr, refint.KBool}).Draw(rt, "insK"), 2)
+			if usesLoop {
+				ins.E = rapid.SampledFrom([]*tw.Expr{tw.Var("li"), tw.Bin("*", tw.Dot(tw.Var("loop"), "index"), intLit(10)), tw.Tern(tw.Dot(tw.Var("loop"), "last"), tw.Str("LAST"), tw.Str("more"))}).Draw(rt, "loopExpr")
+				forms[ins.Name+"/uses-layout-loop"] = "expr"
+			}
 			forms[ins.Name] = "expr"
 		}
 		page = append(page, ins)
@@ -108,7 +120,7 @@ func TestC06_Layouts(t *testing.T) {
 		if alias {
 			ref = "~main"
 		}
-		page, forms := genPage(rt, env, ref, k)
+		page, forms := genPage(rt, env, ref, k, where)
 		files := refint.Files{lname: layout, "pages/home": page}
 		if rapid.Bool().Draw(rt, "secondLayout") {
 			files["layouts/other"] = []*tw.Stmt{tw.Text("OTHER"), {Kind: tw.SReserve, Name: "r0"}}
@@ -128,6 +140,13 @@ func TestC06_Layouts(t *testing.T) {
 				nested++
 			}
 		}
+		usesLoop := 0
+		for f := range forms {
+			if strings.HasSuffix(f, "/uses-layout-loop") {
+				usesLoop++
+				delete(forms, f)
+			}
+		}
 		nt := k >= 2 && nested > 0 && len(forms) > 0 && len(forms) < k
 		classes := []string{"outcome:" + out.St.String(), fmt.Sprintf("reserves:%d", k), fmt.Sprintf("inserted:%d", len(forms))}
 		for _, w := range where {
@@ -138,6 +157,9 @@ func TestC06_Layouts(t *testing.T) {
 		}
 		if facts["reserve-filled"] >= 2 {
 			classes = append(classes, "filled>=2-times")
+		}
+		if usesLoop > 0 {
+			classes = append(classes, "insert-uses-layout-loop")
 		}
 		if out.St == refint.Unspec {
 			classes = append(classes, "unspecified:"+firstWords(out.Why, 4))
@@ -182,8 +204,14 @@ func TestC06_SubsetsEnum(t *testing.T) {
 							if formBits&(1<<i) != 0 {
 								ins.Block = true
 								ins.Body = []*tw.Stmt{tw.Text("B" + names[i] + "("), tw.Print(tw.Var("who")), tw.Text(")")}
+								if names[i] == "row" {
+									ins.Body = append(ins.Body, tw.Print(tw.Var("it")), tw.Print(tw.Dot(tw.Var("loop"), "index")))
+								}
 							} else {
 								ins.E = tw.Bin("+", tw.Str("E"+names[i]+":"), tw.Var("who"))
+								if names[i] == "row" {
+									ins.E = tw.Bin("+", ins.E, tw.Var("it"))
+								}
 							}
 							page = append(page, ins, tw.Text("\n"))
 						}
@@ -222,7 +250,7 @@ func TestC06_Errors(t *testing.T) {
 		env := genProgEnv().Draw(rt, "data")
 		k := rapid.IntRange(1, 3).Draw(rt, "nReserves")
 		layout, _ := genLayoutFile(rt, k)
-		page, _ := genPage(rt, env, "~main", k)
+		page, _ := genPage(rt, env, "~main", k, nil)
 		files := refint.Files{"layouts/main": layout, "home": page}
 		kind := rapid.SampledFrom([]string{"undefined-insert-block", "undefined-insert-expr", "duplicate-insert", "missing-layout", "layout-uses-layout"}).Draw(rt, "errorKind")
 		cs := treeCase{Dir: "t", Ext: ".tw", Page: "home", Data: env.D, LoadErr: true, Note: kind}
